@@ -114,6 +114,10 @@ func (c *Copier) CopyDict(obj Dict) (Dict, error) {
 	res := Dict{}
 	for _, key := range obj.SortedKeys() {
 		val := obj[key]
+		if val == nil {
+			// a nil entry is a null entry, i.e. an absent one
+			continue
+		}
 		repl, err := c.Copy(val.AsPDF(c.w.GetOptions()))
 		if err != nil {
 			return nil, err
